@@ -933,7 +933,7 @@ def oracle_history(ctx, h, mh):
                 if s in sig2bid and sig2bid[s][0] != b:
                     ctx.violation("same-inputs-different-build-id",
                                   "%s and %s have the same scripts, variables, tools, sources and fingerprint but Build-Ids %s / %s" % (
-                                      where, sig2bid[s][1], b[:16], sig2bid[s][0][:16]), replay)
+                                      where, sig2bid[s][1], b[:10] + ".." + b[-10:], sig2bid[s][0][:10] + ".." + sig2bid[s][0][-10:]), replay)
                 if b in bid2sig and bid2sig[b][0] != s:
                     o = bid2sig[b]
                     diff = [i for i, (x, y) in enumerate(zip(eval(n["core"]), eval(o[2]))) if x != y]
